@@ -4,7 +4,7 @@
    The model is of the REPAIRED code (fix: commits listed in known_findings.json); definitions
    with an `orig` flag keep the unchanged behaviour for the …_refuted witnesses.
    ext = IPv6HopByHop / IPv6Destination; ip6 = IPv6. *)
-From GP Require Import Base N6Lib Lip6Model Lip6Proofs Lip6Rt Lip6Rt2 Lip6Rt3 Lip6Rt4 Lip6Rt5 Lip6Idem Lip6Layers Lip6xModel Lip6xProofs.
+From GP Require Import Base N6Lib Lip6Model Lip6Proofs Lip6Rt Lip6Rt2 Lip6Rt3 Lip6Rt4 Lip6Rt5 Lip6Fix Lip6Idem Lip6Layers Lip6xModel Lip6xProofs.
 Open Scope Z_scope.
 
 (* ------------------------------------------------------------------ C19 *)
@@ -447,3 +447,21 @@ Proof.
   exists (mkIp6 6 0 0 0 0 64 (repeat 1 16) (repeat 2 16) (Some (mkExt 59 0 0 [mkTlv 5 0 0 [1; 2] 0 0] [] [])) [] []), (repeat 0 (Z.to_nat 65530)).
   vm_compute. repeat split. discriminate.
 Qed.
+
+(* the fixpoint clause of C06 for IPv6 (no jumbogram): serializing the DECODED layer again, over the
+   same payload, gives the same bytes — without hop-by-hop header, and with one (the decoded header
+   carries the padding as options and writes back exactly the bytes it was decoded from) *)
+Theorem C06_ip6_fixpoint_partial :
+  (forall l payload junk junk', ip6_okb l = true -> p_hbh l = None -> 1 <= n6_len payload <= 65535 ->
+     match ip6_roundtrip l payload junk with
+     | (Ok bytes, (l2, _, _)) => fst (ip6_serialize l2 payload true true junk') = Ok bytes
+     | _ => False
+     end) /\
+  (forall l h payload junk junk', ip6_okb l = true -> p_hbh l = Some h -> no_jumbo (e_opts h) ->
+     bytes_ok payload -> ext_size h + n6_len payload <= 65535 ->
+     match ip6_roundtrip l payload junk with
+     | (Ok bytes, (l2, _, _)) => fst (ip6_serialize l2 payload true true junk') = Ok bytes
+     | _ => False
+     end).
+Proof. split; [exact ip6_fixpoint_nohbh|exact ip6_fixpoint_hbh]. Qed.
+Print Assumptions C06_ip6_fixpoint_partial.
